@@ -153,7 +153,7 @@ theorem removeColumn_total (t : Table) (name : String) (h : t.Inv) : ∃ t', t.r
     simp only
     have hlt := col_lt h hg
     refine bind_total (getIdx_of_lt _ _ _ hlt) ?_
-    by_cases hc : ((t.cols[id]).action == .add) = true
+    by_cases hc : ((t.cols[id]).action == .add || (t.cols[id]).action == .rename) = true
     · rw [if_pos hc]
       let t1 : Table := { t with cols := t.cols.eraseIdx id,
                                  colIdx := (t.colIdx.erase name).mapVals (fun v => if v > id then v - 1 else v) }
